@@ -440,6 +440,10 @@ def cases(rng, tier):
             # the loading half on the older formats: the same content written with the line classes of matchlines_v0
             yield {"k": "v0", "base": desc, "version": list(rng.choice(V0_VERSIONS)), "seed": rng.randint(0, 2**31),
                    "dedup": rng.randint(0, 2**31) if rng.random() < 0.25 else None}
+        if made % 5 == 0:
+            # a LOADED performance (its notes carry tick fields of the file's clock) saved again under another clock
+            yield {"k": "resave", "base": desc, "ppq2": rng.choice([desc["ppq"], desc["ppq"], 2 * desc["ppq"]]),
+                   "mpq2": rng.choice([desc["mpq"], 600000, 250000, 2 * desc["mpq"]])}
         if made % 7 == 0:
             # empty lines anywhere (also before the version line) change nothing: the reader skips them
             yield {"k": "blank", "base": desc, "at": ([0] if rng.random() < 0.6 else []) + [rng.randint(0, 40) for _ in range(rng.randint(0, 3))]}
@@ -1621,12 +1625,56 @@ def evaluate_(desc):
         corr_rt(base, res, ev)
         ev.key = "blank:%s:%s" % (base.get("sub"), ",".join(map(str, desc["at"]))) if "text" in res else None
         return ev
+    if k == "resave":
+        return eval_resave(desc, ev)
     if k == "v0":
         return eval_v0(desc, ev)
     if k == "fixture":
         return eval_fixture(desc, ev)
     if k == "dedup":
         return eval_dedup(desc, ev)
+    return ev
+
+
+def eval_resave(desc, ev):
+    """save -> load -> save under another clock -> load: every performed time must still be the first loaded time
+    rounded to the nearest tick of the clock of the second file (the file stores ticks of ITS header clock)"""
+    from partitura.io.exportmatch import save_match
+    from partitura.io.importmatch import load_match
+
+    base = desc["base"]
+    res = save_and_load(base)
+    if "perf" not in res or "save_error" in res:
+        ev.key = None
+        return ev
+    pp1 = res["perf"][0]
+    first = {n["id"]: (float(n["note_on"]), float(n["note_off"])) for n in pp1.notes}
+    ppq2, mpq2 = desc["ppq2"], desc["mpq2"]
+    part = build_part(base["part"])
+    with tempfile.TemporaryDirectory(prefix="c08r-") as td:
+        fn = os.path.join(td, "y.match")
+        try:
+            quiet(save_match, [dict(a) for a in res["align"]], pp1, part, out=fn, mpq=mpq2, ppq=ppq2, assume_unfolded=True)
+            perf2, al2 = quiet(load_match, fn, create_score=False)
+        except Exception as e:
+            ev.oracle.append("resave: saving a loaded performance again (ppq %d->%d, mpq %d->%d) raised %s: %s" % (
+                base["ppq"], ppq2, base["mpq"], mpq2, type(e).__name__, str(e)[:100]))
+            ev.key = "resave"
+            return ev
+    half = mpq2 / (2e6 * ppq2) + 1e-9
+    for n in perf2[0].notes:
+        if n["id"] not in first:
+            ev.oracle.append("resave: performed note %r appears after the second save" % n["id"])
+            break
+        on1, off1 = first[n["id"]]
+        if abs(float(n["note_on"]) - on1) > half or abs(float(n["note_off"]) - off1) > half:
+            ev.oracle.append("resave: note %r was at (%r, %r) s after the first load and is at (%r, %r) s after saving it again "
+                             "with ppq=%d mpq=%d (more than half a tick away; first clock ppq=%d mpq=%d)" % (
+                                 n["id"], on1, off1, float(n["note_on"]), float(n["note_off"]), ppq2, mpq2, base["ppq"], base["mpq"]))
+            break
+    if len(perf2[0].notes) != len(first):
+        ev.oracle.append("resave: %d notes after the second load, %d after the first" % (len(perf2[0].notes), len(first)))
+    ev.key = "resave:%s:%d:%d" % (base.get("sub"), ppq2, mpq2)
     return ev
 
 
@@ -1637,6 +1685,8 @@ def shrink(desc):
 
     if desc.get("k") == "dedup":
         yield desc["base"]
+        return
+    if desc.get("k") != "rt":
         return
     if desc.get("k") == "v0":
         if desc.get("dedup") is not None:
